@@ -95,8 +95,10 @@ STDLIB_ENUMS = {
 }
 
 
-def find_chains(project, func):
-    """All if/elif chains in `func` (not nested functions) that end in `else: raise ...`."""
+def find_chains(project, func, open_tail=False):
+    """All if/elif chains in `func` (not nested functions) that end in `else: raise ...`.  With open_tail, also chains
+    whose `else:` is a single `return <call>` (the remaining kinds are handed to another dispatcher): for reading the
+    arms of a dispatch that is spread over several functions, not for exhaustiveness."""
     out = []
     module = func.module
     fcfg = None
@@ -131,7 +133,9 @@ def find_chains(project, func):
             synthesized._parent = getattr(cur.test, "_parent", None)
             tests[-1] = synthesized
             tail = cur.body
-        if not tail or not isinstance(tail[-1], ast.Raise) or len(tail) != 1:
+        if not tail or len(tail) != 1:
+            continue
+        if not isinstance(tail[-1], ast.Raise) and not (open_tail and isinstance(tail[0], ast.Return) and isinstance(tail[0].value, ast.Call)):
             continue
         tests = _prefix_arms(node) + tests
         inst = _instantiate(project, func, tests)
@@ -352,8 +356,11 @@ def _blocks(fnode):
 def _build_chain(project, func, module, fcfg, node, tests, tail):
     r = tail[0]
 
-    exc = r.exc.func if isinstance(r.exc, ast.Call) else r.exc
-    fall_exc = src(exc) if exc is not None else "<reraise>"
+    if isinstance(r, ast.Raise):
+        exc = r.exc.func if isinstance(r.exc, ast.Call) else r.exc
+        fall_exc = src(exc) if exc is not None else "<reraise>"
+    else:
+        fall_exc = "<delegated>"
     arms = []
     subjects = {}
     for t in tests:
